@@ -30,3 +30,21 @@ claim("C10", "property-based testing of call histories: replace_import_in_module
 claim("C11", "property-based testing of call histories: local->import conversions in any order mixed with import additions against the identity model",
       "Stateful generated search over conversion orders (ascending, descending, mixed with import additions); uses must designate the new import with the given module/name/type.",
       _edit_note, "DESIGN.md 5/C11")
+claim("C12", "property-based testing: a generated function is rebuilt through the FunctionBuilder and the decoded output is compared with the generator's own encoding of the same function (differential/round-trip oracle)",
+      "Generated-input search: random signatures, locals and type-correct bodies over all feature families are injected instruction by instruction; the output must validate and equal, entity by entity, the module that contains the function natively (signature, locals, instructions + one end, name, returned ID).",
+      "Trusted: wasmparser decoder/validator; wasm-encoder's encoding of the generated function as the expected value.", "DESIGN.md 5/C12")
+claim("C13", "property-based testing of call histories: generated sequences of type additions incl. exact repeats; oracle = structural equality of the decoded type at the returned index, index stability, prefix preservation",
+      "Generated-input search over func/array/struct additions with supertypes, finality and sharing on bases with rec groups and duplicate types.",
+      "Trusted: wasmparser's Debug rendering of sub types as the structural form.", "DESIGN.md 5/C13")
+claim("C14", "property-based testing of call histories: generated local additions through every API path; oracle = returned index arithmetic and decoded local lists",
+      "Generated-input search over FunctionModifier::add_local/add_locals, ModuleIterator::add_local, ComponentIterator::add_local on generated modules; everything else must be unchanged.",
+      "Trusted: wasmparser decoder/validator. FunctionBuilder::add_local is covered by C12.", "DESIGN.md 5/C14")
+claim("C28", "property-based testing of call histories: generated custom-section edit sequences against a list model",
+      "Generated-input search: bases with custom sections at random positions (duplicates, empty names, well-known names with arbitrary payloads) x add/delete/modify/lookup sequences; ordered (name, bytes) list and all other content compared.",
+      "Trusted: wasmparser decoder.", "DESIGN.md 5/C28")
+claim("C29", "property-based testing of call histories: index-shifting edits and naming calls against the identity-based model; names keyed by entity identity",
+      "Generated-input search: function/local/global names decoded from the output are compared, keyed by the identity of the entity they are attached to; known stale-name-map classes are steered around and probed separately.",
+      _edit_note, "DESIGN.md 5/C29")
+claim("C30", "property-based testing of call histories: generated additions with boundary values (NaN payloads, v128, memory64/shared limits) against the identity-based model",
+      "Generated-input search: the entity reached through each returned ID must have exactly the requested type/limits/bytes/initialiser bits; initialiser replacement changes only that global.",
+      _edit_note, "DESIGN.md 5/C30")
